@@ -125,6 +125,19 @@ impl AuthorizationHandlerWrapper {
     }
 }
 
+/// A role with a NUL inside cannot be given to a C callback as it is (the callback would see only
+/// the part before the NUL, which may be the name of another role): such a request is denied
+#[cfg(feature = "enable-tls")]
+fn c_role(role: &str) -> Option<std::ffi::CString> {
+    match std::ffi::CString::new(role) {
+        Ok(role) => Some(role),
+        Err(_) => {
+            tracing::warn!("certificate role contains a NUL character: request denied");
+            None
+        }
+    }
+}
+
 #[cfg(feature = "enable-tls")]
 impl AuthorizationHandler for AuthorizationHandlerWrapper {
     fn read_coils(
@@ -133,7 +146,10 @@ impl AuthorizationHandler for AuthorizationHandlerWrapper {
         range: rodbus::AddressRange,
         role: &str,
     ) -> Authorization {
-        let role = unsafe { &std::ffi::CString::from_vec_unchecked(role.into()) };
+        let Some(role) = c_role(role) else {
+            return Authorization::Deny;
+        };
+        let role = &role;
         self.inner
             .read_coils(unit_id.value, range.into(), role)
             .map(|result| result.into())
@@ -146,7 +162,10 @@ impl AuthorizationHandler for AuthorizationHandlerWrapper {
         range: rodbus::AddressRange,
         role: &str,
     ) -> Authorization {
-        let role = unsafe { &std::ffi::CString::from_vec_unchecked(role.into()) };
+        let Some(role) = c_role(role) else {
+            return Authorization::Deny;
+        };
+        let role = &role;
         self.inner
             .read_discrete_inputs(unit_id.value, range.into(), role)
             .map(|result| result.into())
@@ -159,7 +178,10 @@ impl AuthorizationHandler for AuthorizationHandlerWrapper {
         range: rodbus::AddressRange,
         role: &str,
     ) -> Authorization {
-        let role = unsafe { &std::ffi::CString::from_vec_unchecked(role.into()) };
+        let Some(role) = c_role(role) else {
+            return Authorization::Deny;
+        };
+        let role = &role;
         self.inner
             .read_holding_registers(unit_id.value, range.into(), role)
             .map(|result| result.into())
@@ -172,7 +194,10 @@ impl AuthorizationHandler for AuthorizationHandlerWrapper {
         range: rodbus::AddressRange,
         role: &str,
     ) -> Authorization {
-        let role = unsafe { &std::ffi::CString::from_vec_unchecked(role.into()) };
+        let Some(role) = c_role(role) else {
+            return Authorization::Deny;
+        };
+        let role = &role;
         self.inner
             .read_input_registers(unit_id.value, range.into(), role)
             .map(|result| result.into())
@@ -180,7 +205,10 @@ impl AuthorizationHandler for AuthorizationHandlerWrapper {
     }
 
     fn write_single_coil(&self, unit_id: UnitId, idx: u16, role: &str) -> Authorization {
-        let role = unsafe { &std::ffi::CString::from_vec_unchecked(role.into()) };
+        let Some(role) = c_role(role) else {
+            return Authorization::Deny;
+        };
+        let role = &role;
         self.inner
             .write_single_coil(unit_id.value, idx, role)
             .map(|result| result.into())
@@ -188,7 +216,10 @@ impl AuthorizationHandler for AuthorizationHandlerWrapper {
     }
 
     fn write_single_register(&self, unit_id: UnitId, idx: u16, role: &str) -> Authorization {
-        let role = unsafe { &std::ffi::CString::from_vec_unchecked(role.into()) };
+        let Some(role) = c_role(role) else {
+            return Authorization::Deny;
+        };
+        let role = &role;
         self.inner
             .write_single_register(unit_id.value, idx, role)
             .map(|result| result.into())
@@ -201,7 +232,10 @@ impl AuthorizationHandler for AuthorizationHandlerWrapper {
         range: rodbus::AddressRange,
         role: &str,
     ) -> Authorization {
-        let role = unsafe { &std::ffi::CString::from_vec_unchecked(role.into()) };
+        let Some(role) = c_role(role) else {
+            return Authorization::Deny;
+        };
+        let role = &role;
         self.inner
             .write_multiple_coils(unit_id.value, range.into(), role)
             .map(|result| result.into())
@@ -214,7 +248,10 @@ impl AuthorizationHandler for AuthorizationHandlerWrapper {
         range: rodbus::AddressRange,
         role: &str,
     ) -> Authorization {
-        let role = unsafe { &std::ffi::CString::from_vec_unchecked(role.into()) };
+        let Some(role) = c_role(role) else {
+            return Authorization::Deny;
+        };
+        let role = &role;
         self.inner
             .write_multiple_registers(unit_id.value, range.into(), role)
             .map(|result| result.into())
